@@ -82,10 +82,12 @@ patch("runtime/chan.go", [
      "func chanrecv(c *hchan, ep unsafe.Pointer, block bool) (selected, received bool) {\n\tsimYield()\n", 1)])
 # 6. fake-timer tie break
 patch("runtime/time.go", [("t.rand = cheaprand()", "t.rand = simTimerRand()", 1)])
-# 7. math/rand globals
-patch("runtime/rand.go", [
-    ("func rand() uint64 {\n",
-     "func rand() uint64 {\n\tif simsched.on {\n\t\tif gp := getg(); gp.bubble != nil && gp == gp.m.curg {\n\t\t\treturn simrand()\n\t\t}\n\t}\n", 1)])
+# 7. math/rand globals: the unseeded top-level generators of math/rand and math/rand/v2 read
+#    runtime.rand; route them (and only them) to the sim stream for bubble goroutines.  runtime.rand
+#    itself stays untouched: map seeds and sync.Pool's race-mode random drop also use it, and their
+#    call counts depend on pool contents left over from before the run.
+patch("math/rand/rand.go", [("//go:linkname runtime_rand runtime.rand\n", "//go:linkname runtime_rand runtime.simUserRand\n", 1)])
+patch("math/rand/v2/rand.go", [("//go:linkname runtime_rand runtime.rand\n", "//go:linkname runtime_rand runtime.simUserRand\n", 1)])
 # 8. scheduler
 patch("runtime/proc.go", [
     ("const randomizeScheduler = raceenabled", "const randomizeScheduler = false", 1),
